@@ -57,6 +57,7 @@ type Op struct {
 	ViaRpc     bool         `json:"viarpc,omitempty"`     // root upsert delivered as the input of rpc zzin whose handler upserts it into the store
 	Tree       *model.Tree  `json:"tree,omitempty"`       // payload at a root/container/list-entry entry point
 	List       *model.ListT `json:"list,omitempty"`       // payload at a list entry point
+	Keys       [][]string   `json:"keys,omitempty"`       // sweep: At is a list; its entries are walked once (First/Next), then the ones with these keys are deleted, in this order, through the selections the walk produced
 }
 
 func (o Op) String() string {
@@ -68,6 +69,9 @@ func (o Op) String() string {
 		s += "-via-rpc-input"
 	}
 	s += " @" + o.At.String()
+	if len(o.Keys) > 0 {
+		s += fmt.Sprintf(" keys%v", o.Keys)
+	}
 	if o.SrcKind != "" {
 		s += " from " + o.SrcKind
 	}
@@ -256,6 +260,35 @@ func Exec(env *Env, st store.Store, o Op, ss *simnode.Session, hook ReaderHook) 
 		res.Err = sel.Delete()
 		return
 	}
+	if o.Kind == "sweep" {
+		// "walk the list, then delete some of what was seen": every delete goes
+		// through an entry selection of the one walk, i.e. through one list node
+		found := map[string]*node.Selection{}
+		item, err := sel.First()
+		for ; err == nil && item.Selection != nil; item, err = item.Next() {
+			var ks []string
+			for _, k := range item.Key {
+				ks = append(ks, k.String())
+			}
+			found[strings.Join(ks, "\x00")] = item.Selection
+		}
+		if err != nil {
+			res.Err = fmt.Errorf("walking %s: %w", o.At, err)
+			return
+		}
+		opStart(ss)
+		for _, k := range o.Keys {
+			es := found[strings.Join(k, "\x00")]
+			if es == nil {
+				res.Err = fmt.Errorf("walking the entries of %s with First/Next did not meet entry %v", o.At, k)
+				return
+			}
+			if res.Err = es.Delete(); res.Err != nil {
+				return
+			}
+		}
+		return
+	}
 	if o.ViaRpc {
 		if len(o.At) != 0 || o.Kind != "upsert" {
 			res.Err = fmt.Errorf("harness: via-rpc is for root upserts")
@@ -384,6 +417,20 @@ func ApplyModel(t *model.Tree, o Op) (out model.Outcome, resolved bool) {
 	switch o.Kind {
 	case "delete":
 		t.Delete(o.At)
+		return out, true
+	case "sweep":
+		if loc.List == nil || loc.Tree != nil {
+			return out, false
+		}
+		for _, k := range o.Keys {
+			if _, e := loc.List.Find(k); e == nil {
+				return out, false // (a shrunk scenario) the sweep names an entry that is not there
+			}
+		}
+		for _, k := range o.Keys {
+			p := append(append(model.Path(nil), o.At[:len(o.At)-1]...), model.Step{Name: o.At[len(o.At)-1].Name, Key: k})
+			t.Delete(p)
+		}
 		return out, true
 	case "replace":
 		t.Delete(o.At)
